@@ -22,7 +22,7 @@ def build_jobs(tier, seed):
     # symbolic read size) against one read of the whole stream
     for mg in (('none', 'qcow2', 'vmdk') if tier == 'quick' else
                [m for m, _ in img.MAGICS0]):
-        jobs.append(J(H['detect'], dict(
+        jobs.append(J(H['detect-rel'], dict(
             P, magic=mg, overlays='single', relational=True, nmin=33000,
             read=4096 if tier == 'quick' else 'sym', vmdk_ok=True),
             split_depth=8))
